@@ -462,3 +462,31 @@ def pmap(func, items, nproc=None, chunksize=None):
     ctx = mp.get_context("fork")
     with ctx.Pool(nproc) as pool:
         return pool.map(_pm_call, items, chunksize or max(1, len(items) // (nproc * 8)))
+
+
+# ---------------------------------------------------------------------------
+# helpers added for C20
+# ---------------------------------------------------------------------------
+
+_FAST = None
+
+
+def fast_subdir(name):
+    """Like subdir(), but on tmpfs (/dev/shm) when that is available: for checks that create and remove a
+    directory per case (file-system metadata operations on the scratch disk cost ~1 ms each under load).
+    Removed at exit.  Falls back to subdir()."""
+    global _FAST
+    if _FAST is None:
+        _FAST = ""
+        shm = "/dev/shm"
+        if os.path.isdir(shm) and os.access(shm, os.W_OK) and not os.environ.get("VERIF_NO_SHM"):
+            try:
+                _FAST = tempfile.mkdtemp(prefix="ssepy-verif.%d." % os.getpid(), dir=shm)
+                atexit.register(shutil.rmtree, _FAST, True)
+            except OSError:
+                _FAST = ""
+    if not _FAST:
+        return subdir(name)
+    p = os.path.join(_FAST, name)
+    os.makedirs(p, exist_ok=True)
+    return p
